@@ -21,7 +21,10 @@ ASSUMPTIONS = ["u32 arithmetic of page_limited as written into the model (checke
                "StorageResolver::get is modelled as store look-up + eager /Parent loading with the 'Recursive reference' chain; caches are transparent (C12)",
                "derive(Object) readers of PageTree / Page are modelled by the record `obj` (keys pinned by the generated-table lemma C07_keys)"]
 RULE = ("random ordered trees (<= 60 nodes, <= 12 /Pages levels, fan-out 0..6, empty intermediate nodes), random placement of "
-        "MediaBox / CropBox / Resources (direct, indirect, inherited, absent), random object numbering, direct or object-stream storage, "
+        "MediaBox / CropBox / Resources (direct, indirect, inherited, absent; a share of the resource dictionaries with a /ColorSpace "
+        "sub-dictionary of well-formed DeviceN (4 and 5 elements, type 2 / 4 / 0 tint transforms), Separation, Indexed (string and stream "
+        "look-up), ICCBased, CalGray, CalRGB, Lab, Pattern and device spaces: the page is still the i-th leaf with these resources, and "
+        "page_cs (no model) reads every colour space back as written), random object numbering, direct or object-stream storage, "
         "classic or stream xref, cached and uncached File; each file: num_pages and get_page(i) for i in 0..count+2 (page_query) or the "
         "pages() iterator (page_iter), judged against the leaf list computed from the tree and against the model on the tree's store; "
         "plus out-of-domain stores (untrue counts, foreign /Parent links, /Kids cycles, 13..20 levels, page numbers near 2^32) judged "
@@ -86,6 +89,57 @@ def mk_iter(data, root, cached, judged=True, tags=()):
     exp = ok(*PT.expected_iter(root)) if judged else None
     return Case("page_iter", [b"c" if cached else b"u", data], expect=exp,
                 mfields=[PT.store_text(root), b"%d" % root.num], tags=list(tags), kind="structured" if judged else "malformed")
+
+
+def mk_cs(data, root, cached, tags=()):
+    """the resources a page is answered with, looked into: the colour spaces named by the /ColorSpace sub-dictionary of the
+    page's own or inherited /Resources, each described as it was written (mode page_cs; no Coq runner — the model moves
+    resources as opaque tokens —, judged from the tree only)"""
+    nq = PT.nleaves(root) + 1
+    want = PT.expected_cs_query(root, nq)
+
+    def chk(r):
+        if r[0] != "OK":
+            return "a well-formed file must load: %s %s" % (r[0], r[1])
+        if len(r[1]) != len(want):
+            return "expected %d fields, got %d" % (len(want), len(r[1]))
+        if r[1][0] != want[0]:
+            return "num_pages: expected %s, got %s" % (want[0].decode(), r[1][0].decode("latin-1"))
+        for i, (g, e) in enumerate(zip(r[1][1:], want[1:])):
+            if g != e:
+                g, e = g.decode("latin-1"), e.decode("latin-1")
+                if g.startswith("!") and not e.startswith("!"):
+                    return ("get_page(%d) of a well-formed page tree must return the leaf %s (its resources name well-formed colour spaces), got the error %s"
+                            % (i, e.split(" ")[0], g))
+                ge, ee = g.split(";"), e.split(";")
+                d = [(a, b) for a, b in zip(ge, ee) if a != b][:1] or [(g[:200], e[:200])]
+                return "get_page(%d): the page's (own or inherited) resources must hold the colour spaces as written: expected %s, read %s" % (i, d[0][1][:300], d[0][0][:300])
+        return None
+    return Case("page_cs", [b"c" if cached else b"u", b"%d" % nq, data], check=chk, model=False, tags=list(tags) + ["colour-spaces"])
+
+
+def colour_shape(rng):
+    """every colour-space family and spelling (tools/oracle/pagetree.py: cs_all_families) in resources a page owns (direct and
+    indirect) and in resources it inherits from its parent and from the root; returns (file, root)"""
+    L, T = PT.leaf, PT.tree
+    own, own_r, inh = L(res=("D", "Own"), mb=(0, 0, 10, 10)), L(), L()
+    mid = T([inh, L(res=("D", ""))], res=("D", "Mid"))
+    root = T([own, mid, own_r, L()], mb=(0, 0, 612, 792), res=("D", "Root"))
+    PT.finish(root)
+    n = len(PT.nodes(root))
+    PT.number(root, rng, first=1)
+    nxt = [n + 2]
+
+    def next_free():
+        v = nxt[0]
+        nxt[0] += 1
+        return v
+    rnum = next_free()
+    own_r.res = ("R", rnum)
+    for x in (own, own_r, mid, root):
+        x.cs = PT.colour_spaces(rng, next_free, everything=True)
+    data = PT.render(root, rng, n + 1, {rnum: "QR"}, {}, compress=rng.choice([0.0, 0.5, 1.0]))
+    return data, root
 
 
 def example_tree():
@@ -216,7 +270,14 @@ def generate(rng, tier):
             yield mk_query(data, shape, cached=bool(v), tags=["fixed:" + name])
             yield mk_iter(data, shape, cached=not v, tags=["fixed:" + name])
             yield mk_spec(data, shape, cached=bool(v), tags=["fixed:" + name])
+    # every colour-space family in own and inherited resources: the page is still returned, with these resources
+    for v in range(2 if tier == "quick" else 20):
+        data, root = colour_shape(rng)
+        yield mk_query(data, root, cached=bool(v % 2), tags=["fixed:colour"])
+        yield mk_cs(data, root, cached=not (v % 2), tags=["fixed:colour"])
+        yield mk_iter(data, root, cached=bool(v % 2), tags=["fixed:colour"])
     n = 300 if tier == "quick" else 30000
+    n_cs = 0
     for i in range(n):
         if i < 48:
             shape = PT.gen_shape(rng, target_h=1 + i % 12)        # every height 1..12, four times
@@ -231,6 +292,9 @@ def generate(rng, tier):
             yield mk_iter(data, root, cached=bool((i // 4) % 2), tags=tags)
         if i % 3 == 0:
             yield mk_spec(data, root, cached=not (i % 2), tags=tags)
+        if any(x.cs is not None for x in PT.nodes(root)) and (tier != "quick" or n_cs < 60):
+            n_cs += 1
+            yield mk_cs(data, root, cached=bool(n_cs % 2), tags=tags)
     for c in out_of_domain(rng, tier):
         yield c
 
